@@ -634,6 +634,22 @@ impl C09 {
                 }
                 mask = m;
                 tail.push(format!("mem_prot({})", m));
+            } else if rng.below(10) == 0 {
+                // the area grows / shrinks (as a heap does under brk): its permission mask stays what mem_prot made it
+                let nl = T_LEN as u64 + 0x10 * rng.below(8);
+                let r = call(|| ax.mem_resize_section(T_AT, nl));
+                tail.push(format!("mem_resize_section({:#x}) -> {}", nl, r.kind()));
+                col.distinct_key("hist|resize");
+                if r.is_panic() {
+                    col.violation_case(&format!("mem_resize_section:panic:{}", r.panic_key()), k, r.describe(), json!({"history_tail": tail}));
+                    return;
+                }
+                if let Some(a) = ax.verif_areas().iter().find(|a| a.start == T_AT) {
+                    if a.access != mask {
+                        col.violation_case("resize-changed-the-permission-mask", k, format!("mem_resize_section({:#x}, {:#x}): access {} -> {}", T_AT, nl, mask, a.access), json!({"history_tail": tail}));
+                        return;
+                    }
+                }
             } else {
                 let path = *rng.pick(&PATHS);
                 // the area may have been modified by earlier successful writes; keep it fetchable/returnable
